@@ -237,11 +237,22 @@ structure Defects where
       key is not registered (pinned by `test_index_maintained_on_update`) -/
   indexNotMaintainedOnKeyUpdate : Bool := false
   /-- the unique index holds one entry per key: an INSERT that finds a live entry (of a transaction it does not see)
-      adds nothing, one that finds a delete-marked entry replaces it, a DELETE marks whatever entry carries the key -/
+      adds nothing, one that finds a delete-marked entry or the entry of a transaction in its snapshot's aborted set
+      replaces it, a DELETE marks whatever entry carries the key -/
   indexOneEntryPerKey : Bool := false
   /-- uniqueness is only probed when a statement runs, against the statement's snapshot; nothing is re-checked at
       commit, so two open transactions inserting the same key both commit -/
   uniqueNotRecheckedAtCommit : Bool := false
+  /-- the check at commit is not a re-check of the constraints on what the committed database would become: the keys a
+      transaction INSERTed travel in its write set (`record_key_write`), and its commit is refused exactly when a
+      transaction that committed since its begin inserted one of them.  Keys that came into being another way (UPDATE
+      of a key column) are not covered, a key whose row was deleted again still counts -/
+  commitChecksInsertedKeysOnly : Bool := false
+  /-- (catalog, `Model/Ddl.lean`) the name index holds one entry per name: CREATE TABLE is refused with a conflict while
+      the entry of that name was written by another transaction the creator does not see and that has not rolled back
+      (still open, or committed after the creator's snapshot) — first creator wins where the specification lets both
+      create and refuses the second committer -/
+  createRefusedWhileNameHeld : Bool := false
   deriving Repr
 
 def Defects.none : Defects := {}
@@ -302,15 +313,17 @@ def replaceFirst (p : IxEntry → Bool) (new : IxEntry) : Index → Index
   | [] => []
   | e :: es => if p e then new :: es else e :: replaceFirst p new es
 
-/-- index maintenance of an INSERT (`maintain_secondary_indexes`, insert arm) -/
-def ixInsert (D : Defects) (me : Nat) (ix : Index) (table : String) (cols : List Nat) (vals : List Val) (rid : Rid) :
-    Index :=
+/-- index maintenance of an INSERT (`maintain_secondary_indexes`, insert arm); `aborted` = the inserter's snapshot's
+    aborted set: an entry written by one of those transactions (left by a rolled-back INSERT) is taken over -/
+def ixInsert (D : Defects) (me : Nat) (ix : Index) (table : String) (cols : List Nat) (vals : List Val) (rid : Rid)
+    (aborted : List Nat := []) : Index :=
   let k := keyOf cols vals
   let new : IxEntry := ⟨table, cols, k, rid, me, none⟩
   if k.contains .null then ix
   else if D.indexOneEntryPerKey then
     match ix.find? (fun e => e.is table cols k) with
-    | some e => if e.xmax.isSome then replaceFirst (fun e => e.is table cols k) new ix else ix
+    | some e =>
+      if aborted.contains e.xmin || e.xmax.isSome then replaceFirst (fun e => e.is table cols k) new ix else ix
     | none => ix ++ [new]
   else ix ++ [new]
 
@@ -327,14 +340,14 @@ def ixUpdate (D : Defects) (s : Snapshot) (ix : Index) (table : String) (cols : 
     (rid : Rid) : Index :=
   if D.indexNotMaintainedOnKeyUpdate then ix
   else if keyOf cols old == keyOf cols new then ix
-  else ixInsert D s.xid (ixDelete D s ix table cols old rid) table cols new rid
+  else ixInsert D s.xid (ixDelete D s ix table cols old rid) table cols new rid s.aborted
 
 /-- the index after one row-level effect; `v` = the writer's view before the effect -/
 def ixApply (D : Defects) (cat : Catalog) (s : Snapshot) (v : View) (ix : Index) : Effect → Index
   | .ins rid t vals =>
     match findTable cat t with
     | none => ix
-    | some ts => ts.keySets.foldl (fun ix cols => ixInsert D s.xid ix t cols vals rid) ix
+    | some ts => ts.keySets.foldl (fun ix cols => ixInsert D s.xid ix t cols vals rid s.aborted) ix
   | .upd rid c x =>
     match v.find? (fun r => r.rid == rid) with
     | none => ix
@@ -637,12 +650,33 @@ def State.commitTxn (σ : State) (tid : Nat) : State × Bool :=
 def State.abortTxn (σ : State) (tid : Nat) : State :=
   { σ with txns := setStatus σ.txns tid .aborted }
 
+/-- the key entries of `tid`'s write set (`ThreadContext::record_key_write`): table, key columns and (fully non-NULL)
+    key of every row it inserted, under every key set of the table -/
+def insertedKeys (cat : Catalog) (rows : List Row) (tid : Nat) : List (String × List Nat × List Val) :=
+  rows.flatMap (fun r =>
+    match r.versions.getLast?, findTable cat r.table with
+    | some v, some ts =>
+      if v.creator == tid then
+        (ts.keySets.filter (fun K => !(keyOf K v.vals).contains .null)).map (fun K => (r.table, K, keyOf K v.vals))
+      else []
+    | _, _ => [])
+
+/-- `validate_write_set` over the key entries: a transaction that committed since `tid` began inserted one of the keys
+    `tid` inserted -/
+def State.keyTaken (σ : State) (tid : Nat) : Bool :=
+  match σ.txns[tid]? with
+  | Option.none => false
+  | some t =>
+    (σ.clog.drop t.startTs).any (fun e =>
+      (insertedKeys σ.cat σ.rows e.1).any (fun k => (insertedKeys σ.cat σ.rows tid).contains k))
+
 /-- commit as the sessions see it: first-committer-wins validation, then the constraints are re-checked on what the
     committed database would become; `none` = committed -/
 def State.commitC (D : Defects) (σ : State) (tid : Nat) : State × Option Err :=
   if (σ.commitTxn tid).2 then
-    if !D.uniqueNotRecheckedAtCommit &&
-        !constraintsHold σ.cat (view D ((σ.commitTxn tid).1.freshSnap D) (σ.commitTxn tid).1.rows) then
+    if (D.commitChecksInsertedKeysOnly && σ.keyTaken tid) || (!D.commitChecksInsertedKeysOnly &&
+        !D.uniqueNotRecheckedAtCommit &&
+        !constraintsHold σ.cat (view D ((σ.commitTxn tid).1.freshSnap D) (σ.commitTxn tid).1.rows)) then
       (σ.abortTxn tid, some .constraint)
     else ((σ.commitTxn tid).1, Option.none)
   else ((σ.commitTxn tid).1, some .conflict)
